@@ -4,6 +4,7 @@ import (
 	"bytes"
 	"errors"
 	"fmt"
+	"runtime"
 	"sync"
 	"time"
 
@@ -30,7 +31,7 @@ func init() {
 			return 20000
 		},
 		Run:      runC19,
-		Required: []string{"prepared_sends_decoded", "twin_comparisons", "variants_used"},
+		Required: []string{"prepared_sends_decoded", "twin_comparisons", "variants_used", "concurrent_runs_with_writecontrol_pingers"},
 		Assumptions: []string{
 			"the twin connection is a second Conn with identical role and settings written with WriteMessage; frame boundaries are not compared, only decoded type, payload and compressed flag",
 		},
@@ -58,6 +59,8 @@ type c19Op struct {
 	Bool  bool `json:"b,omitempty"`
 	Level int  `json:"l,omitempty"`
 }
+
+const c19Ping = "ping-from-another-goroutine"
 
 func runC19(ctx *core.Ctx, out *core.Out) {
 	r := ctx.R
@@ -174,7 +177,18 @@ func runC19(ctx *core.Ctx, out *core.Out) {
 		var wg sync.WaitGroup
 		start := make(chan struct{})
 		for ci, cn := range conns {
-			wg.Add(1)
+			// the transport dawdles inside Write, and on every connection another goroutine
+			// sends pings through WriteControl while the prepared sends are under way
+			cn.nc.DawdleFn = func() { runtime.Gosched(); time.Sleep(20 * time.Microsecond) }
+			wg.Add(2)
+			go func(cn *c19Conn) {
+				defer wg.Done()
+				<-start
+				for k := 0; k < 4; k++ {
+					cn.c.WriteControl(ws.PingMessage, []byte(c19Ping), time.Time{})
+					time.Sleep(30 * time.Microsecond)
+				}
+			}(cn)
 			go func(ci int, cn *c19Conn) {
 				defer wg.Done()
 				<-start
@@ -185,6 +199,7 @@ func runC19(ctx *core.Ctx, out *core.Out) {
 				}
 			}(ci, cn)
 		}
+		out.Count("concurrent_runs_with_writecontrol_pingers", 1)
 		close(start)
 		wg.Wait()
 	}
@@ -204,6 +219,17 @@ func runC19(ctx *core.Ctx, out *core.Out) {
 			}
 			fail("ill-formed", fmt.Sprintf("connection %d (%s): %s", ci, cn.cfg, what), map[string]interface{}{"conn": ci, "frames": framesDesc(frames, 12)})
 			return
+		}
+		if concurrent {
+			// the pingers' frames may stand anywhere between whole frames
+			kept := msgs[:0]
+			for _, m := range msgs {
+				if m.Op == 9 && string(m.Data) == c19Ping {
+					continue
+				}
+				kept = append(kept, m)
+			}
+			msgs = kept
 		}
 		if hbSent[ci] {
 			if len(msgs) == 0 || msgs[0].Op != 9 || string(msgs[0].Data) != "hb" {
